@@ -53,13 +53,16 @@ PoolThorough == PoolQuick \cup
 
 Data1 == [v |-> "val1", items |-> <<"n1", "n2">>, c |-> TRUE]
 Data2 == [v |-> "val2", items |-> <<>>, c |-> FALSE]
-Datas == {Data1, Data2}
+\* the variables of the probe data with other conditions and lists (a render must not be keyed on its variables alone)
+Data3 == [v |-> "val1", items |-> <<>>, c |-> FALSE]
+Datas == {Data1, Data2, Data3}
 
 \* ---- operations offered -------------------------------------------------------
 Ops ==
      (IF "Load" \in OpKinds THEN {[op |-> "Load", n |-> l.n, def |-> l.def] : l \in Loadables} ELSE {})
   \cup (IF "Render" \in OpKinds
-        THEN {[op |-> "Render", n |-> n, e |-> e, data |-> Data2] : n \in ArgNames, e \in Entries} ELSE {})
+        THEN {[op |-> "Render", n |-> n, e |-> e, data |-> Data2] : n \in ArgNames, e \in Entries}
+             \cup {[op |-> "Render", n |-> n, e |-> e, data |-> Data3] : n \in ArgNames, e \in Entries \cap {"tpl"}} ELSE {})
   \cup {[op |-> k, n |-> n] : k \in OpKinds \cap {"Get", "Validate", "Remove"}, n \in ArgNames}
   \cup {[op |-> k] : k \in OpKinds \cap {"Clear", "SetBasePath"}}
 
